@@ -259,6 +259,17 @@ def m_split(ip, s, *a, **k):
     an uninterpreted function of s."""
     if a and a[0] is not None and is_strlike(a[0]) and _isb(a[0]) != _isb(s):
         raise TypeError("a bytes-like object is required, not 'str'" if _isb(s) else "must be str or None, not bytes")
+    if isinstance(s, SStr) and not k and len(a) == 2 and a[0] is None and isinstance(a[1], int) and a[1] == 1:
+        # s.split(None, 1) of a shaped string: decided on the structure (pyvc/shape.py)
+        from . import shape
+        ps = shape.pieces_of(s.t)
+        if ps is not None:
+            ws = " \t\n\r\x0b\x0c" if s.isbytes else None
+            if ws is not None:
+                r = shape.split_ws_once(ps, ws)
+                if r is not shape.UNKNOWN:
+                    return [mkstr(shape.concat(x), True) for x in r]
+        raise Unsupported("split(None, 1) on a string whose structure does not decide it")
     if a or k or not isinstance(s, SStr):
         raise Unsupported("split(sep) on symbolic string")
     arr = F_split_set(s.t)
